@@ -101,7 +101,7 @@ class SimTask(asyncio.Task):
         self._sim_hash = splitmix64((sim.hash_salt << 32) ^ sim.task_counter) & 0x3FFFFFFFFFFFFFFF
         self.cancel_log = []
         self.sim_sim = sim
-        super().__init__(coro, loop=loop, context=context, name=name)
+        super().__init__(coro, loop=loop, context=context, name=name, eager_start=eager_start)
 
     def __hash__(self):
         return self._sim_hash
@@ -127,7 +127,10 @@ class SimTask(asyncio.Task):
 
 
 def _task_factory(loop, coro, context=None):
-    return SimTask(coro, loop=loop, context=context)
+    # swarm knob `sim.eager`: the loop is configured with an eager task factory (Python 3.12): a new task runs
+    # synchronously up to its first suspension inside create_task()
+    eager = bool(getattr(loop.sim, "eager", False)) and loop.is_running()
+    return SimTask(coro, loop=loop, context=context, eager_start=eager)
 
 
 class SimLoop(asyncio.BaseEventLoop):
